@@ -267,6 +267,9 @@ pub struct LogEntry {
     pub kind: Kind,
     pub oneway: bool,
     pub more: bool,
+    /// number of completed writes (= framed messages) per connection when this `handle()` started
+    /// (empty in lean recordings)
+    pub frames_written: Vec<u32>,
 }
 
 #[derive(Debug, Clone)]
@@ -302,6 +305,7 @@ pub struct Shared {
     /// (tick, event, applied from inside handle())
     pub applied: Vec<(u64, Ev, bool)>,
     pub steps_done: usize,
+    pub lean: bool,
 }
 
 impl Shared {
@@ -384,7 +388,8 @@ impl Service for Svc {
             let mut sh = self.sh.borrow_mut();
             sh.clock += 1;
             let tick = sh.clock;
-            sh.log.push(LogEntry { tick, client, seq, kind, oneway: call.oneway(), more: call.more() });
+            let frames_written = if sh.lean { Vec::new() } else { sh.wires.iter().map(|w| w.borrow().writes.len() as u32).collect() };
+            sh.log.push(LogEntry { tick, client, seq, kind, oneway: call.oneway(), more: call.more(), frames_written });
             // traffic that arrives while the server is busy with this call
             if matches!(sh.sched.front(), Some(Step { mode: Mode::InHandle, .. })) {
                 let st = sh.sched.pop_front().unwrap();
@@ -476,6 +481,7 @@ pub fn run_world(cfg: &WorldCfg) -> WorldOut {
         sched: cfg.steps.iter().cloned().collect(),
         applied: Vec::new(),
         steps_done: 0,
+        lean: cfg.lean,
     }));
     let _ = vnet::trace::take();
     let server = Server::new(listener, Svc { sh: sh.clone(), last: String::new() });
@@ -1080,6 +1086,108 @@ pub fn check_reference(prop: &str, scn: &Scenario, out: &WorldOut, stats: &mut B
         let ok = if on_boundary { seen == want } else { seen.len() <= want.len() && seen[..] == want[..seen.len()] };
         if !ok {
             v.push((format!("{prop}/service-did-not-see-each-call-exactly-once-in-order"), format!("conn{i}: service saw {seen:?}, client sent {want:?}")));
+        }
+    }
+    v
+}
+
+/// Bounded progress for stream items under sustained load (C10 "every item is delivered", C18 "a flooding
+/// client cannot starve the others"): an item that a service-side stream produced while calls keep coming
+/// must reach its client after a number of further `handle()` invocations that is bounded by the shape of
+/// the configuration, not by the length of the flood. The bound is deliberately generous (three times what
+/// a round-robin over streams and connections needs, plus a constant), so that only "waits until the calls
+/// stop" is flagged, not a particular scheduling policy.
+pub fn stream_latency(prop: &str, scn: &Scenario, out: &WorldOut, stats: &mut BTreeMap<String, u64>) -> Vec<(String, String)> {
+    let mut v = Vec::new();
+    if out.server_exit.is_some() || out.no_quiescence || scn.lean {
+        return v;
+    }
+    let n = scn.conns.len();
+    let produced = produced_until(&out.applied, u64::MAX);
+    let nstreams = out.streams.values().filter(|s| s.0).count();
+    // ticks of transitions (accepts, closures, stream starts and ends)
+    let mut transitions: Vec<u64> = Vec::new();
+    fn walk<'a>(e: &'a Ev, f: &mut dyn FnMut(&'a Ev)) {
+        match e {
+            Ev::Multi(v) => v.iter().for_each(|e| walk(e, f)),
+            _ => f(e),
+        }
+    }
+    for (tick, ev, _) in &out.applied {
+        walk(ev, &mut |e| {
+            if matches!(e, Ev::Accept(_) | Ev::Eof(_) | Ev::RdErr(_) | Ev::Close { .. }) {
+                transitions.push(*tick);
+            }
+        });
+    }
+    for l in &out.log {
+        if l.kind == Kind::Sub && !l.oneway {
+            transitions.push(l.tick);
+        }
+    }
+    for (i, c) in scn.conns.iter().enumerate() {
+        if c.faulty || c.fail_write_at.is_some() || c.raw.is_some() {
+            continue;
+        }
+        let client = i as u32;
+        // frame index of every item in this connection's output (answers of earlier calls come first)
+        let mut frame_idx = 0u32;
+        for call in &c.calls {
+            match call.kind {
+                Kind::Echo | Kind::Fail => {
+                    if !call.oneway {
+                        frame_idx += 1;
+                    }
+                }
+                Kind::Sub => {
+                    if call.oneway {
+                        continue;
+                    }
+                    let Some(sub_tick) = out.log.iter().find(|l| l.client == client && l.seq == call.seq).map(|l| l.tick) else { break };
+                    let (items, closed) = produced.get(&(client, call.seq)).cloned().unwrap_or_default();
+                    // tick at which each item was produced
+                    let mut item_ticks = Vec::new();
+                    for (tick, ev, _) in &out.applied {
+                        walk(ev, &mut |e| {
+                            if let Ev::Item { client: cl, seq, .. } = e {
+                                if *cl == client && *seq == call.seq && item_ticks.len() < items.len() {
+                                    item_ticks.push(*tick);
+                                }
+                            }
+                        });
+                    }
+                    for (j, t) in item_ticks.iter().enumerate() {
+                        let fi = frame_idx + j as u32;
+                        let t0 = (*t).max(sub_tick);
+                        // handle() invocations that started after the item existed and still did not see it written
+                        let later: Vec<&LogEntry> = out.log.iter().filter(|l| l.tick > t0 && !l.frames_written.is_empty()).collect();
+                        let waited = later.iter().take_while(|l| l.frames_written[i] <= fi).count();
+                        // earlier items of the same stream that were not yet written at t0
+                        let at_t0 = out.log.iter().filter(|l| l.tick <= t0 && !l.frames_written.is_empty()).last().map_or(0, |l| l.frames_written[i]);
+                        let ahead = (fi.saturating_sub(at_t0.max(frame_idx))) as usize;
+                        let t_end = later.get(waited).map_or(u64::MAX, |l| l.tick);
+                        let t_in = transitions.iter().filter(|x| **x >= t0 && **x <= t_end).count();
+                        let bound = 3 * ((ahead + 1) * (nstreams + 1) + n * (t_in + 1)) + 6;
+                        *stats.entry("stream_items_timed".into()).or_insert(0) += 1;
+                        let mx = stats.entry("max_handle_calls_an_item_waited".into()).or_insert(0);
+                        *mx = (*mx).max(waited as u64);
+                        if waited > 0 {
+                            *stats.entry("stream_items_produced_under_load".into()).or_insert(0) += 1;
+                        }
+                        if waited > bound {
+                            v.push((
+                                format!("{prop}/stream-item-not-delivered-while-calls-keep-coming"),
+                                format!("item {j} of conn{i}'s stream (call #{}) existed from tick {t0}; {waited} further handle() invocations started before it was written (bound {bound}: {ahead} items ahead, {nstreams} streams, {n} connections, {t_in} transitions)", call.seq),
+                            ));
+                            return v;
+                        }
+                    }
+                    frame_idx += items.len() as u32;
+                    if !closed {
+                        break;
+                    }
+                }
+            }
         }
     }
     v
